@@ -277,6 +277,139 @@ pub proof fn lemma_preds_complete(es: Set<(usize, usize)>, pm: PredMap, u: usize
     lemma_path_closed(es, f, w, v);
 }
 
+// ---- compute_acyclic: vocabulary and the acyclicity argument ---------------------------------
+
+/// an edge e was kept by compute_acyclic although its tail was already dequeued (at or before its
+/// head) only if the tail is no transitive predecessor of the head
+pub open spec fn kept_ok(es: Set<(usize, usize)>, deq: Seq<usize>, e: (usize, usize)) -> bool {
+    forall|i: int, j: int| #![trigger deq[i], deq[j]] 0 <= j <= i < deq.len() && deq[i] == e.0 && deq[j] == e.1 ==> !path_plus(es, e.1, e.0)
+}
+
+pub proof fn lemma_subwalk(es: Set<(usize, usize)>, p: Seq<usize>, i: int, j: int)
+    requires is_walk(es, p), 0 <= i <= j < p.len(),
+    ensures is_walk(es, p.subrange(i, j + 1)), p.subrange(i, j + 1)[0] == p[i], p.subrange(i, j + 1).last() == p[j], p.subrange(i, j + 1).len() == j - i + 1,
+{
+    let q = p.subrange(i, j + 1);
+    assert forall|k: int| 0 <= k < q.len() - 1 implies #[trigger] walk_edge(es, q, k) by {
+        assert(walk_edge(es, p, i + k));
+        assert(q[k] == p[i + k] && q[k + 1] == p[i + k + 1]);
+    }
+}
+
+/// on a closed walk, the successor of p[k] reaches p[k] again by at least one edge
+pub proof fn lemma_cycle_rotate(es: Set<(usize, usize)>, p: Seq<usize>, k: int)
+    requires is_walk(es, p), p.len() >= 2, p[0] == p.last(), 0 <= k < p.len() - 1,
+    ensures path_plus(es, p[k + 1], p[k]),
+{
+    let n = p.len() - 1;
+    // A: from p[k+1] to p[n] == p[0]
+    lemma_subwalk(es, p, k + 1, n);
+    let a = p.subrange(k + 1, n + 1);
+    assert(is_walk(es, a) && a[0] == p[k + 1] && a.last() == p[0]);
+    assert(path(es, p[k + 1], p[0]));
+    if k == 0 {
+        if n == 1 {
+            assert(walk_edge(es, p, 0));
+            lemma_path_edge(es, p[0], p[1]);
+        } else {
+            assert(a.len() >= 2);
+            assert(path_plus(es, p[k + 1], p[k]));
+        }
+    } else {
+        // B: from p[0] to p[k], k >= 1 edges
+        lemma_subwalk(es, p, 0, k);
+        let b = p.subrange(0, k + 1);
+        assert(is_walk(es, b) && b.len() >= 2 && b[0] == p[0] && b.last() == p[k]);
+        assert(path_plus(es, p[0], p[k]));
+        lemma_path_plus_trans_r(es, p[k + 1], p[0], p[k]);
+    }
+}
+
+/// among the first m vertices of p (all dequeued) one has the largest dequeue position
+pub proof fn lemma_argmax_pos(deq: Seq<usize>, p: Seq<usize>, m: int) -> (k: int)
+    requires 1 <= m <= p.len(), forall|i: int| 0 <= i < m ==> deq.contains(#[trigger] p[i]),
+    ensures 0 <= k < m, forall|i: int| 0 <= i < m ==> pos_of(deq, #[trigger] p[i]) <= pos_of(deq, p[k]),
+    decreases m,
+{
+    if m == 1 {
+        0
+    } else {
+        let k0 = lemma_argmax_pos(deq, p, m - 1);
+        if pos_of(deq, p[m - 1]) > pos_of(deq, p[k0]) { m - 1 } else { k0 }
+    }
+}
+
+/// the kept edges form an acyclic graph
+pub proof fn lemma_kept_acyclic(es: Set<(usize, usize)>, ge: Set<(usize, usize)>, deq: Seq<usize>)
+    requires
+        deq.no_duplicates(),
+        forall|e: (usize, usize)| #![trigger ge.contains(e)] ge.contains(e) ==> es.contains(e) && deq.contains(e.0) && kept_ok(es, deq, e),
+    ensures acyclic(ge),
+{
+    assert forall|v: usize| !path_plus(ge, v, v) by {
+        if path_plus(ge, v, v) {
+            let p = choose|p: Seq<usize>| #![trigger is_walk(ge, p)] is_walk(ge, p) && p.len() >= 2 && p[0] == v && p.last() == v;
+            let n = p.len() - 1;
+            assert forall|i: int| 0 <= i < n implies deq.contains(#[trigger] p[i]) by {
+                assert(walk_edge(ge, p, i));
+                assert(ge.contains((p[i], p[i + 1])));
+            }
+            let k = lemma_argmax_pos(deq, p, n);
+            assert(walk_edge(ge, p, k));
+            let e = (p[k], p[k + 1]);
+            assert(ge.contains(e));
+            let b = p[k + 1];
+            if k + 1 < n {
+                assert(deq.contains(p[k + 1]));
+                assert(pos_of(deq, p[k + 1]) <= pos_of(deq, p[k]));
+            } else {
+                assert(b == p[0]);
+                assert(deq.contains(p[0]));
+                assert(pos_of(deq, p[0]) <= pos_of(deq, p[k]));
+            }
+            let i = pos_of(deq, p[k]);
+            let j = pos_of(deq, b);
+            assert(0 <= j <= i < deq.len() && deq[i] == e.0 && deq[j] == e.1);
+            assert(kept_ok(es, deq, e));
+            assert(!path_plus(es, b, p[k]));
+            lemma_cycle_rotate(ge, p, k);
+            assert(ge.subset_of(es));
+            lemma_path_plus_mono(ge, es, b, p[k]);
+        }
+    }
+}
+
+/// invariant of compute_acyclic's breadth-first construction over the fixed data (es = edges of
+/// the source graph, ge = edges kept so far, deq = vertices dequeued so far, in order)
+pub open spec fn acyc_build_inv(vs: Set<usize>, es: Set<(usize, usize)>, ge: Set<(usize, usize)>, deq: Seq<usize>, visited: Set<usize>, start: usize) -> bool {
+    &&& deq.no_duplicates()
+    &&& forall|x: usize| #![trigger visited.contains(x)] #![trigger deq.contains(x)] visited.contains(x) <==> deq.contains(x)
+    &&& forall|x: usize| #![trigger visited.contains(x)] visited.contains(x) ==> vs.contains(x) && path(es, start, x) && path(ge, start, x)
+    &&& forall|e: (usize, usize)| #![trigger ge.contains(e)] ge.contains(e) ==> es.contains(e) && deq.contains(e.0) && kept_ok(es, deq, e)
+}
+
+/// the queued vertices are distinct, unvisited, vertices, and reachable from start in both graphs
+pub open spec fn acyc_queue_ok(vs: Set<usize>, es: Set<(usize, usize)>, ge: Set<(usize, usize)>, queue: Seq<usize>, visited: Set<usize>, start: usize) -> bool {
+    &&& queue.no_duplicates()
+    &&& forall|i: int| 0 <= i < queue.len() ==> vs.contains(#[trigger] queue[i]) && !visited.contains(queue[i]) && path(es, start, queue[i]) && path(ge, start, queue[i])
+}
+
+/// kept_ok survives appending to deq a vertex that is neither endpoint ... in fact any fresh vertex
+pub proof fn lemma_kept_ok_push(es: Set<(usize, usize)>, deq: Seq<usize>, x: usize, e: (usize, usize))
+    requires kept_ok(es, deq, e), !deq.contains(x), deq.contains(e.0),
+    ensures kept_ok(es, deq.push(x), e),
+{
+    let d2 = deq.push(x);
+    assert forall|i: int, j: int| #![trigger d2[i], d2[j]] 0 <= j <= i < d2.len() && d2[i] == e.0 && d2[j] == e.1 implies !path_plus(es, e.1, e.0) by {
+        if i == deq.len() {
+            // d2[i] == x == e.0, but e.0 is in deq and x is not
+            assert(deq.contains(e.0));
+        } else {
+            assert(d2[i] == deq[i] && d2[j] == deq[j]);
+        }
+    }
+}
+
 impl<V, E> Graph<V, E>
 where
     V: Vertex,
@@ -1317,6 +1450,241 @@ where
                 }
                 lemma_preds_complete(es, predecessors@, u, v);
             }
+        }
+    }
+//@ end
+
+
+//@ fn impl<V, E> Graph<V, E> :: fn compute_acyclic loops=3
+//@ rewrite 1 `let mut graph = Graph::new();` => `let mut graph: Graph<NullVertex, NullEdge> = Graph::new();` ## R-type-annotation: spells out the inferred type of the local
+//@ rewrite 1 `let mut visited = FxHashSet::default();` => `let mut visited: FxHashSet<usize> = FxHashSet::default();` ## R-type-annotation: spells out the inferred type of the local
+//@ rewrite 1 `let mut queue = VecDeque::new();` => `let mut queue: VecDeque<usize> = VecDeque::new();` ## R-type-annotation: spells out the inferred type of the local
+//@ rewrite 1 `for vertex in &self.vertices {` => `for vertex in it: &self.vertices {` ## R-ghost-iter-name: names the ghost iterator of the for loop; no executable change
+//@ rewrite 1 `for successor in &self` => `for successor in it: &self` ## R-ghost-iter-name: names the ghost iterator of the for loop; no executable change
+//@ rewrite 1 `{ continue; }` => `{ } else {` ## R-continue: `if C { continue; } REST` at the end of a loop body is `if C { } else { REST }` (part 1 of 2; Verus for-loops have no `continue`)
+//@ rewrite 1 `))?; } }` => `))?; } } }` ## R-continue: part 2 of 2, closes the else block at the end of the loop body
+//@ spec
+    requires self.graph_wf(),
+    ensures
+        /*@missing*/ !self.vertices@.contains_key(start_index) ==> (r matches Err(e) && e == Error::GraphVertexNotFound(start_index)),
+        /*@ok*/ self.vertices@.contains_key(start_index) ==> r is Ok,
+        /*@wf*/ r matches Ok(g) ==> g.graph_wf() && g.vertices@.dom() == self.vertices@.dom(),
+        /*@subgraph*/ r matches Ok(g) ==> forall|e: (usize, usize)| #![trigger g.edges@.contains_key(e)] g.edges@.contains_key(e) ==> self.edges@.contains_key(e) && self.reaches(start_index, e.0),
+        /*@acyclic*/ r matches Ok(g) ==> acyclic(g.edges@.dom()),
+        /*@dropped*/ r matches Ok(g) ==> forall|u: usize, w: usize| #![trigger self.edges@.contains_key((u, w))]
+            self.edges@.contains_key((u, w)) && self.reaches(start_index, u) && !g.edges@.contains_key((u, w)) ==> path_plus(self.edges@.dom(), w, u),
+        /*@reach*/ r matches Ok(g) ==> forall|v: usize| #![trigger self.reaches(start_index, v)] path(g.edges@.dom(), start_index, v) <==> self.reaches(start_index, v),
+//@ loop 0
+    invariant
+        self.graph_wf(),
+        seq_lists_map(it.seq(), self.vertices@),
+        graph.graph_wf(), graph.edges@.dom() =~= Set::<(usize, usize)>::empty(),
+        forall|k: usize| #![trigger graph.vertices@.contains_key(k)] graph.vertices@.contains_key(k) ==> self.vertices@.contains_key(k),
+        forall|k: usize| #![trigger graph.vertices@.contains_key(k)] graph.vertices@.contains_key(k) ==> exists|j: int| 0 <= j < it.index@ && *(#[trigger] it.seq()[j]).0 == k,
+        forall|j: int| 0 <= j < it.index@ ==> graph.vertices@.contains_key(*(#[trigger] it.seq()[j]).0),
+        forall|k: usize| #![trigger self.vertices@.contains_key(k)] it.index@ == it.seq().len() && self.vertices@.contains_key(k) ==> graph.vertices@.contains_key(k),
+//@ before 0 `graph.insert_vertex(NullVertex::new(*vertex.0))?;`
+    let ghost gv0 = graph.vertices@.dom();
+    proof {
+        lemma_seq_lists_map(it.seq(), self.vertices@);
+        assert(self.vertices@.contains_pair(*vertex.0, *vertex.1));
+        if graph.vertices@.contains_key(*vertex.0) {
+            let j = choose|j: int| 0 <= j < it.index@ && *(#[trigger] it.seq()[j]).0 == *vertex.0;
+            assert(*it.seq()[j].0 != *it.seq()[it.index@].0);
+        }
+    }
+//@ after 0 `graph.insert_vertex(NullVertex::new(*vertex.0))?;`
+    proof {
+        assert forall|k: usize| #![trigger graph.vertices@.contains_key(k)] graph.vertices@.contains_key(k) implies exists|j: int| 0 <= j < it.index@ + 1 && *(#[trigger] it.seq()[j]).0 == k by {
+            if k != *vertex.0 {
+                assert(gv0.contains(k));
+                let j = choose|j: int| 0 <= j < it.index@ && *(#[trigger] it.seq()[j]).0 == k;
+            }
+        }
+        assert forall|k: usize| #![trigger self.vertices@.contains_key(k)] it.index@ + 1 == it.seq().len() && self.vertices@.contains_key(k) implies graph.vertices@.contains_key(k) by {
+            let j = choose|j: int| 0 <= j < it.seq().len() && *(#[trigger] it.seq()[j]).0 == k;
+            if j < it.index@ { assert(gv0.contains(*it.seq()[j].0)); }
+        }
+    }
+//@ before 0 `while !queue.is_empty()`
+    let ghost mut deq: Seq<usize> = Seq::empty();
+    proof {
+        assert(graph.vertices@.dom() =~= self.vertices@.dom());
+        assert(queue@ =~= seq![start_index]);
+        lemma_path_refl(self.edges@.dom(), start_index);
+        lemma_path_refl(graph.edges@.dom(), start_index);
+        assert(queue@.contains(queue@[0]));
+        vstd::set_lib::lemma_len_subset(visited@, self.vertices@.dom());
+    }
+//@ loop 1
+    invariant
+        self.graph_wf(), self.vertices@.contains_key(start_index),
+        graph.graph_wf(), graph.vertices@.dom() == self.vertices@.dom(),
+        predecessors@.dom() == self.vertices@.dom(),
+        forall|v: usize, u: usize| #![trigger predecessors@[v]@.contains(u)] self.vertices@.contains_key(v) ==> (predecessors@[v]@.contains(u) <==> path_plus(self.edges@.dom(), u, v)),
+        acyc_build_inv(self.vertices@.dom(), self.edges@.dom(), graph.edges@.dom(), deq, visited@, start_index),
+        acyc_queue_ok(self.vertices@.dom(), self.edges@.dom(), graph.edges@.dom(), queue@, visited@, start_index),
+        forall|a: usize, b: usize| #![trigger self.edges@.contains_key((a, b))] visited@.contains(a) && self.edges@.contains_key((a, b))
+            ==> (visited@.contains(b) || queue@.contains(b)) && (graph.edges@.contains_key((a, b)) || path_plus(self.edges@.dom(), b, a)),
+        visited@.contains(start_index) || queue@.contains(start_index),
+    decreases self.vertices@.dom().len() - visited@.len(),
+//@ before 0 `let vertex_index = queue.pop_front().unwrap();`
+    let ghost q0 = queue@;
+    let ghost vis0 = visited@;
+//@ after 0 `visited.insert(vertex_index);`
+    let ghost deq0 = deq;
+    let ghost q1 = queue@;
+    proof {
+        let es = self.edges@.dom();
+        let ge = graph.edges@.dom();
+        assert(q0 =~= seq![vertex_index] + q1);
+        assert(q0[0] == vertex_index);
+        lemma_drop_first_contains(q0);
+        assert(q0.subrange(1, q0.len() as int) =~= q1);
+        assert(!vis0.contains(vertex_index));
+        deq = deq0.push(vertex_index);
+        lemma_push_contains(deq0, vertex_index);
+        assert(!deq0.contains(vertex_index));
+        assert(deq.no_duplicates());
+        assert forall|e: (usize, usize)| #![trigger ge.contains(e)] ge.contains(e) implies es.contains(e) && deq.contains(e.0) && kept_ok(es, deq, e) by {
+            lemma_kept_ok_push(es, deq0, vertex_index, e);
+        }
+        assert forall|i: int| 0 <= i < q1.len() implies self.vertices@.dom().contains(#[trigger] q1[i]) && !visited@.contains(q1[i]) && path(es, start_index, q1[i]) && path(ge, start_index, q1[i]) by {
+            assert(q0[i + 1] == q1[i]);
+            assert(q0[0] != q0[i + 1]);
+        }
+        assert(q1.no_duplicates()) by {
+            assert forall|i: int, j: int| 0 <= i < q1.len() && 0 <= j < q1.len() && i != j implies q1[i] != q1[j] by {
+                assert(q0[i + 1] == q1[i] && q0[j + 1] == q1[j]);
+            }
+        }
+        vstd::set_lib::lemma_len_subset(vis0.insert(vertex_index), self.vertices@.dom());
+        vstd::set_lib::lemma_len_subset(vis0, self.vertices@.dom());
+        // no kept edge leaves vertex_index yet: heads of kept edges were dequeued before
+        assert forall|b: usize| !ge.contains((vertex_index, b)) by {
+            if ge.contains((vertex_index, b)) { assert(deq0.contains(vertex_index)); }
+        }
+    }
+//@ loop 2
+    invariant
+        self.graph_wf(), self.vertices@.contains_key(start_index), self.vertices@.contains_key(vertex_index),
+        graph.graph_wf(), graph.vertices@.dom() == self.vertices@.dom(),
+        predecessors@.dom() == self.vertices@.dom(),
+        forall|v: usize, u: usize| #![trigger predecessors@[v]@.contains(u)] self.vertices@.contains_key(v) ==> (predecessors@[v]@.contains(u) <==> path_plus(self.edges@.dom(), u, v)),
+        *vertex_predecessors == predecessors@[vertex_index],
+        seq_lists_set_ref(it.seq(), self.successors@[vertex_index]@),
+        visited@ == vis0.insert(vertex_index), !vis0.contains(vertex_index), deq == deq0.push(vertex_index),
+        deq[deq.len() - 1] == vertex_index,
+        acyc_build_inv(self.vertices@.dom(), self.edges@.dom(), graph.edges@.dom(), deq, visited@, start_index),
+        acyc_queue_ok(self.vertices@.dom(), self.edges@.dom(), graph.edges@.dom(), queue@, visited@, start_index),
+        forall|a: usize, b: usize| #![trigger self.edges@.contains_key((a, b))] visited@.contains(a) && a != vertex_index && self.edges@.contains_key((a, b))
+            ==> (visited@.contains(b) || queue@.contains(b)) && (graph.edges@.contains_key((a, b)) || path_plus(self.edges@.dom(), b, a)),
+        visited@.contains(start_index) || queue@.contains(start_index),
+        forall|j: int| 0 <= j < it.index@ ==> (visited@.contains(*#[trigger] it.seq()[j]) || queue@.contains(*it.seq()[j]))
+            && (graph.edges@.contains_key((vertex_index, *it.seq()[j])) || path_plus(self.edges@.dom(), *it.seq()[j], vertex_index)),
+        forall|j: int| it.index@ <= j < it.seq().len() ==> !graph.edges@.contains_key((vertex_index, *#[trigger] it.seq()[j])),
+        forall|b: usize| #![trigger self.edges@.contains_key((vertex_index, b))] it.index@ == it.seq().len() && self.edges@.contains_key((vertex_index, b))
+            ==> (visited@.contains(b) || queue@.contains(b)) && (graph.edges@.contains_key((vertex_index, b)) || path_plus(self.edges@.dom(), b, vertex_index)),
+        self.vertices@.dom().len() - visited@.len() < self.vertices@.dom().len() - vis0.len(),
+//@ before 0 `if visited.contains(successor) && vertex_predecessors.contains(successor)`
+    let ghost qa = queue@;
+    let ghost gea = graph.edges@.dom();
+    proof {
+        lemma_seq_lists_set_ref(it.seq(), self.successors@[vertex_index]@);
+        assert(self.successors@[vertex_index]@.contains(*successor));
+        assert(self.edges@.contains_key((vertex_index, *successor)));
+        assert(self.vertices@.contains_key(*successor));
+        lemma_push_contains(qa, *successor);
+    }
+    let ghost mut fresh_in_queue = false;
+//@ before 0 `queue.push_back(*successor);`
+    proof {
+        if qa.contains(*successor) {
+            let i = choose|i: int| 0 <= i < qa.len() && qa[i] == *successor;
+            assert(vstd::std_specs::cmp::PartialEqSpec::eq_spec(&qa[i], successor));
+        }
+        assert(!qa.contains(*successor));
+        fresh_in_queue = true;
+    }
+//@ before 0 `} else { // successors we haven't seen yet`
+    proof {
+        assert forall|b: usize| #![trigger self.edges@.contains_key((vertex_index, b))] it.index@ + 1 == it.seq().len() && self.edges@.contains_key((vertex_index, b))
+            implies (visited@.contains(b) || queue@.contains(b)) && (graph.edges@.contains_key((vertex_index, b)) || path_plus(self.edges@.dom(), b, vertex_index)) by {
+            assert(self.successors@[vertex_index]@.contains(b));
+            let j = choose|j: int| 0 <= j < it.seq().len() && *#[trigger] it.seq()[j] == b;
+        }
+    }
+//@ after 0 `graph.insert_edge(NullEdge::new(vertex_index, *successor))?;`
+    proof {
+        let es = self.edges@.dom();
+        let ge = graph.edges@.dom();
+        let b = *successor;
+        assert(ge =~= gea.insert((vertex_index, b)));
+        assert(gea.subset_of(ge));
+        if queue@.len() > qa.len() { assert(queue@ =~= qa.push(b)); assert(fresh_in_queue); assert(!qa.contains(b)); }
+        assert(visited@.contains(vertex_index));
+        lemma_path_step(es, start_index, vertex_index, b);
+        assert(path(gea, start_index, vertex_index));
+        lemma_path_mono(gea, ge, start_index, vertex_index);
+        lemma_path_step(ge, start_index, vertex_index, b);
+        // the new edge satisfies kept_ok: its tail, if dequeued already, is no transitive predecessor
+        assert(kept_ok(es, deq, (vertex_index, b))) by {
+            assert forall|i: int, j: int| #![trigger deq[i], deq[j]] 0 <= j <= i < deq.len() && deq[i] == vertex_index && deq[j] == b implies !path_plus(es, b, vertex_index) by {
+                assert(deq.contains(b));
+                assert(visited@.contains(b));
+                assert(!predecessors@[vertex_index]@.contains(b));
+            }
+        }
+        assert forall|x: usize| #![trigger visited@.contains(x)] visited@.contains(x) implies path(ge, start_index, x) by {
+            lemma_path_mono(gea, ge, start_index, x);
+        }
+        assert forall|i: int| 0 <= i < queue@.len() implies self.vertices@.dom().contains(#[trigger] queue@[i]) && !visited@.contains(queue@[i])
+            && path(es, start_index, queue@[i]) && path(ge, start_index, queue@[i]) by {
+            if i < qa.len() {
+                assert(queue@[i] == qa[i]);
+                lemma_path_mono(gea, ge, start_index, qa[i]);
+            }
+        }
+        assert(queue@.no_duplicates()) by {
+            assert forall|i: int, j: int| 0 <= i < queue@.len() && 0 <= j < queue@.len() && i != j implies queue@[i] != queue@[j] by {
+                if i < qa.len() { assert(queue@[i] == qa[i]); }
+                if j < qa.len() { assert(queue@[j] == qa[j]); }
+                if i >= qa.len() || j >= qa.len() { assert(!qa.contains(b)); }
+            }
+        }
+        assert forall|j: int| it.index@ + 1 <= j < it.seq().len() implies !graph.edges@.contains_key((vertex_index, *#[trigger] it.seq()[j])) by {
+            assert(*it.seq()[j] != *it.seq()[it.index@]);
+        }
+        assert forall|b2: usize| #![trigger self.edges@.contains_key((vertex_index, b2))] it.index@ + 1 == it.seq().len() && self.edges@.contains_key((vertex_index, b2))
+            implies (visited@.contains(b2) || queue@.contains(b2)) && (graph.edges@.contains_key((vertex_index, b2)) || path_plus(es, b2, vertex_index)) by {
+            assert(self.successors@[vertex_index]@.contains(b2));
+            let j = choose|j: int| 0 <= j < it.seq().len() && *#[trigger] it.seq()[j] == b2;
+            if j < it.index@ { assert(qa.contains(*it.seq()[j]) ==> queue@.contains(*it.seq()[j])); }
+        }
+    }
+//@ before 0 `Ok(graph)`
+    proof {
+        let es = self.edges@.dom();
+        let ge = graph.edges@.dom();
+        assert(queue@.len() == 0);
+        let f = |v: usize| visited@.contains(v);
+        assert forall|a: usize, b: usize| #![trigger es.contains((a, b))] f(a) && es.contains((a, b)) implies f(b) by {
+            assert(self.edges@.contains_key((a, b)));
+            assert(!queue@.contains(b));
+        }
+        assert(!queue@.contains(start_index));
+        assert forall|v: usize| self.reaches(start_index, v) implies #[trigger] visited@.contains(v) by {
+            lemma_path_closed(es, f, start_index, v);
+        }
+        lemma_kept_acyclic(es, ge, deq);
+        assert forall|e: (usize, usize)| #![trigger graph.edges@.contains_key(e)] graph.edges@.contains_key(e) implies self.edges@.contains_key(e) && self.reaches(start_index, e.0) by {
+            assert(ge.contains(e));
+            assert(deq.contains(e.0));
+        }
+        assert(ge.subset_of(es));
+        assert forall|v: usize| #![trigger self.reaches(start_index, v)] path(ge, start_index, v) <==> self.reaches(start_index, v) by {
+            if path(ge, start_index, v) { lemma_path_mono(ge, es, start_index, v); }
+            if self.reaches(start_index, v) { assert(visited@.contains(v)); }
         }
     }
 //@ end
